@@ -144,9 +144,20 @@ func appendFixed(out []Piece, p Piece) []Piece {
 }
 
 func drawSoup(rt *rapid.T) []Piece {
-	n := rapid.IntRange(1, 24).Draw(rt, "n")
+	// a slice generator, so that rapid can shrink by dropping pieces
+	raw := rapid.SliceOfN(rapid.Custom(drawSoupPiece), 1, 24).Draw(rt, "pieces")
 	var out []Piece
-	for i := 0; i < n; i++ {
+	for _, p := range raw {
+		out = appendFixed(out, p)
+	}
+	if rapid.IntRange(0, 9).Draw(rt, "tail") == 0 {
+		out = appendFixed(out, Piece{kBAD, pick(rt, "bad", badTails)})
+	}
+	return out
+}
+
+func drawSoupPiece(rt *rapid.T) Piece {
+	{
 		var p Piece
 		switch k := rapid.IntRange(0, 27).Draw(rt, "kind"); {
 		case k < 3:
@@ -168,12 +179,8 @@ func drawSoup(rt *rapid.T) []Piece {
 		default:
 			p = drawWS(rt, 2)
 		}
-		out = appendFixed(out, p)
+		return p
 	}
-	if rapid.IntRange(0, 9).Draw(rt, "tail") == 0 {
-		out = appendFixed(out, Piece{kBAD, pick(rt, "bad", badTails)})
-	}
-	return out
 }
 
 // ---------------------------------------------------------------------------
